@@ -232,6 +232,10 @@ class SMI(Machine):
         a0 = args[0] if args else None
         d0 = deref(a0) if args else None
 
+        # --- calling a closure / fn item through the Fn traits: <F as Fn<(A, B)>>::call(f, (a, b))
+        if meth in ('call', 'call_mut', 'call_once') and re.search(r' as Fn(Mut|Once)?<', c0) and len(args) == 2:
+            tup = deref(args[1])
+            return self.call_closure(args[0], list(tup) if isinstance(tup, list) else ([] if tup == () else [tup]))
         # --- fmt
         if 'fmt::rt::Argument' in c and meth in ('new_display', 'new_debug'):
             return FmtArg(meth, args[0])
@@ -361,6 +365,37 @@ class SMI(Machine):
             if meth == 'join':
                 r = native.call('url', __import__('urllib.parse').parse.urljoin(d0.s, self.cstr(args[1])))
                 return OK(Url(r)) if r is not None else ERR(Opaque('url::ParseError'))
+        if re.search(r'\bCow<', c0) and meth in ('into', 'from', 'deref', 'into_owned', 'as_ref', 'borrow', 'to_mut', 'clone'):
+            if meth == 'into_owned':
+                return RString(as_str(a0))
+            return a0 if meth != 'clone' else clone_val(d0)
+        if c in ('std::iter::repeat', 'core::iter::repeat') or c in ('std::iter::repeat_n', 'core::iter::repeat_n'):
+            if meth == 'repeat_n':
+                return It(iter([clone_val(a0) for _ in range(args[1])]))
+            raise Unsupported('unbounded iter::repeat')
+        if c in ('std::iter::successors', 'core::iter::successors'):
+            def succ(first, f):
+                cur = first
+                guard = 0
+                while isinstance(cur, Adt) and cur.variant == 1:
+                    yield cur.fields[0]
+                    cur = self.call_closure(f, [Ref(cur.fields, 0)])
+                    guard += 1
+                    if guard > 100000:
+                        raise Divergence('iter::successors does not end')
+            return It(succ(deref(a0), args[1]))
+        if c in ('std::iter::from_fn', 'core::iter::from_fn'):
+            def ff(f):
+                guard = 0
+                while True:
+                    r = deref(self.call_closure(f, []))
+                    if r.variant == 0:
+                        return
+                    yield r.fields[0]
+                    guard += 1
+                    if guard > 100000:
+                        raise Divergence('iter::from_fn does not end')
+            return It(ff(a0))
         if c in ('log::max_level', 'max_level'):
             return Adt('LevelFilter', 0, [])       # no logger installed: logging is off
         if c.startswith('log::__private_api::'):
@@ -418,6 +453,19 @@ class SMI(Machine):
             return NONE()
         if meth == 'from_residual' and c0.startswith('<Option<'):
             return NONE()
+        mi = re.match(r'<(.+) as Into<(.+)>>::into$', c)
+        if mi and not re.search(r'\b(Rc|Box|Arc|Cow)<', c0):
+            src, dst = mi.group(1).split('::')[-1], mi.group(2).split('::')[-1]
+            if src == dst:
+                return a0
+            for (t, meth_, tr), b in self.impl_list:
+                if t == dst and meth_ == 'from' and tr == 'From' and b.arg_types and src in b.arg_types[0]:
+                    return self.run(b, [a0])
+            if dst == 'String' and isinstance(as_str(a0), (str, SymVal)):
+                return RString(as_str(a0))
+            if dst in ('PathBuf', 'OsString') and isinstance(as_str(a0), str):
+                return as_str(a0)
+            raise Unsupported('no From<%s> for %s' % (mi.group(1), mi.group(2)))
         if meth in ('into', 'from') and re.search(r'\b(Rc|Box|Arc)<', c0):
             return RcRef([a0], 0) if re.search(r'\b(Rc|Arc)<', c0) else Ref([a0], 0)
         if c in ('Rc::new', 'Arc::new'):
@@ -527,6 +575,11 @@ class SMI(Machine):
             if meth == 'take':
                 a0.set(NONE())
                 return d0
+            if meth == 'transpose':
+                if not some:
+                    return OK(NONE())
+                r = deref(v)
+                return OK(SOME(r.fields[0])) if r.variant == 0 else ERR(r.fields[0])
             if meth == 'zip':
                 o = deref(args[1])
                 return SOME([v, o.fields[0]]) if some and o.variant == 1 else NONE()
@@ -582,6 +635,11 @@ class SMI(Machine):
                 return SOME(v) if ok else NONE()
             if meth == 'err':
                 return NONE() if ok else SOME(v)
+            if meth == 'transpose':
+                if not ok:
+                    return SOME(ERR(v))
+                o = deref(v)
+                return SOME(OK(o.fields[0])) if o.variant == 1 else NONE()
             if meth == 'or_else':
                 return d0 if ok else self.call_closure(args[1], [v])
             if meth == 'or':
@@ -624,6 +682,11 @@ class SMI(Machine):
                 return r
         if isinstance(d0, tuple) and d0 and d0[0] == 'xname' and meth == 'name':
             return d0[1]
+        if isinstance(d0, tuple) and d0 and d0[0] == 'xattr':
+            if meth == 'name':
+                return d0[1]
+            if meth == 'value':
+                return d0[2]
         if isinstance(d0, tuple) and d0 and d0[0] == 'xns':
             if meth == 'name':
                 return opt(d0[1])
@@ -753,6 +816,15 @@ class SMI(Machine):
             if meth == 'clear':
                 del d0[:]
                 return ()
+            if meth in ('reserve', 'reserve_exact', 'shrink_to_fit', 'shrink_to'):
+                return ()
+            if meth == 'capacity':
+                return len(d0)
+            if meth in ('extend_from_slice',):
+                d0.extend(clone_val(x) for x in deref(args[1]))
+                return ()
+            if meth in ('iter', 'into_iter') and False:
+                pass
             if meth in ('sort', 'sort_unstable'):
                 keys = [self.cstr(x) if not isinstance(deref(x), int) else deref(x) for x in d0]
                 d0[:] = [x for _, x in sorted(zip(keys, d0), key=lambda kv: kv[0])]
@@ -850,6 +922,21 @@ class SMI(Machine):
                 return SOME([Ref(d0.entries[i], 0), Ref(d0.entries[i], 1)]) if i is not None else NONE()
             if meth == 'contains_key':
                 return self.map_find(d0, args[1]) is not None
+            if meth in ('first_key_value', 'last_key_value', 'pop_first', 'pop_last') and d0.kind == 'btree':
+                order = self.map_order(d0)
+                if not order:
+                    return NONE()
+                i = order[0] if 'first' in meth else order[-1]
+                if meth.startswith('pop'):
+                    e = d0.entries.pop(i)
+                    return SOME([e[0], e[1]])
+                return SOME([Ref(d0.entries[i], 0), Ref(d0.entries[i], 1)])
+            if meth == 'get_mut':
+                i = self.map_find(d0, args[1])
+                return SOME(Ref(d0.entries[i], 1)) if i is not None else NONE()
+            if meth in ('into_values', 'into_keys'):
+                order = self.map_order(d0)
+                return It(d0.entries[i][1 if meth == 'into_values' else 0] for i in order)
             if meth == 'entry':
                 return ('entry', d0, args[1])
             if meth == 'len':
@@ -894,6 +981,26 @@ class SMI(Machine):
                 old = d0.v
                 d0.v = args[1]
                 return old
+        if isinstance(d0, Adt) and d0.name in ('Range', 'RangeInclusive', 'RangeFrom') and all(isinstance(f, int) for f in d0.fields):
+            lo = d0.fields[0]
+            hi = d0.fields[1] + (1 if d0.name == 'RangeInclusive' else 0) if d0.name != 'RangeFrom' else None
+            if hi is not None:
+                if meth in ('into_iter', 'iter'):
+                    return It(iter(range(lo, hi)))
+                if meth == 'next':
+                    if lo < hi:
+                        d0.fields[0] = lo + 1
+                        return SOME(lo)
+                    return NONE()
+                if meth == 'len':
+                    return max(0, hi - lo)
+                if meth == 'contains':
+                    x = deref(args[1])
+                    return lo <= x < hi
+                if meth == 'is_empty':
+                    return lo >= hi
+                if meth in ('rev', 'map', 'filter', 'filter_map', 'for_each', 'fold', 'any', 'all', 'find', 'collect', 'zip', 'take', 'skip', 'step_by', 'enumerate', 'flat_map', 'sum', 'count', 'try_for_each', 'position', 'last', 'find_map'):
+                    return self.model_iter(It(iter(range(lo, hi))), meth, [None] + list(args[1:]), c0)
         if c.startswith('RangeInclusive') and meth == 'new':
             return Adt('RangeInclusive', 0, [args[0], args[1]])
         if c.startswith('inflector::'):
@@ -954,6 +1061,48 @@ class SMI(Machine):
                 for ch in self.children_of(node):
                     yield from gen(ch)
             return It(gen(n))
+        if meth == 'ancestors':
+            def anc(node):
+                cur = node
+                while cur is not None:
+                    yield cur
+                    par = cur.d['parent']
+                    cur = None if par is None else XNode(cur.doc, par)
+            return It(anc(n))
+        if meth in ('next_sibling', 'prev_sibling', 'next_sibling_element', 'prev_sibling_element', 'first_child', 'last_child', 'first_element_child', 'last_element_child'):
+            if meth in ('first_child', 'last_child', 'last_element_child'):
+                kids = list(self.children_of(n))
+                if 'element' in meth:
+                    kids = [k for k in kids if k.d['kind'] == 'element']
+                if not kids:
+                    return NONE()
+                return SOME(kids[0] if meth.startswith('first') else kids[-1])
+            par = dd['parent']
+            if par is None:
+                return NONE()
+            sibs = list(self.children_of(XNode(n.doc, par)))
+            idxs = [i for i, k in enumerate(sibs) if k.idx == n.idx]
+            if not idxs:
+                return NONE()
+            i = idxs[0]
+            seq = sibs[i + 1:] if meth.startswith('next') else sibs[:i][::-1]
+            if meth.endswith('element'):
+                seq = [k for k in seq if k.d['kind'] == 'element']
+            return SOME(seq[0]) if seq else NONE()
+        if meth == 'has_tag_name':
+            want = args[1]
+            want = self.cstr(want) if not isinstance(want, str) else want
+            return self.smap(lambda t: t == want, dd.get('tag', '')) if dd['kind'] == 'element' else False
+        if meth == 'attributes':
+            out_ = []
+            for k, v, pres in dd.get('attrs', []):
+                if self.truth(pres):
+                    out_.append(('xattr', k, v))
+            return It(iter(out_))
+        if meth == 'is_root':
+            return dd['kind'] == 'root'
+        if meth == 'is_comment':
+            return dd['kind'] == 'comment'
         if meth == 'document':
             return n.doc
         if meth == 'fmt':
@@ -1262,6 +1411,42 @@ class SMI(Machine):
                         return
                     yield r.fields[0]
             return It(g())
+        if meth == 'step_by':
+            k = args[1]
+            items = list(it.gen)
+            return It(iter(items[::k]))
+        if meth == 'scan':
+            st_ = [args[1]]
+            f = args[2]
+
+            def g():
+                while True:
+                    x = it.next()
+                    if x is None:
+                        return
+                    r = deref(self.call_closure(f, [Ref(st_, 0), x]))
+                    if r.variant == 0:
+                        return
+                    yield r.fields[0]
+            return It(g())
+        if meth == 'len':
+            items = list(it.gen)
+            it.gen = iter(items)
+            return len(items)
+        if meth == 'is_empty':
+            items = list(it.gen)
+            it.gen = iter(items)
+            return not items
+        if meth in ('eq', 'ne') and len(args) == 2:
+            a = list(it.gen)
+            b = list(self.as_iter(args[1]).gen)
+            r = len(a) == len(b) and all(self.truth(struct_eq(x, y)) for x, y in zip(a, b))
+            return r if meth == 'eq' else not r
+        if meth == 'product':
+            r = 1
+            for x in it.gen:
+                r *= deref(x)
+            return r
         if meth == 'unzip':
             a, b = [], []
             while True:
